@@ -734,6 +734,10 @@ class HSM2Dongle:
                 return (False, self.RESPONSE.SIGN.ERROR_UNEXPECTED)
 
             bytes_requested = response[1][self.OFF.DATA]
+        except OverflowError as e:
+            # Extradata (witness script and outpoint value) length must fit in 2 bytes
+            self.logger.error("Sign: invalid BTC tx payload: %s", str(e))
+            return (False, self.RESPONSE.SIGN.ERROR_BTC_TX)
         except HSM2DongleErrorResult as e:
             self.logger.error("Sign returned: %s", hex(e.error_code))
             if e.error_code in [
